@@ -156,11 +156,13 @@ LMemParts(e) ==
       cells == TLCEval(ObsCells(secs))
       limg  == TLCEval(LinkedImage(objs))
       owned == TLCEval(OwnedAddrs(objs))
+      \* the observed cells at relocated words / linker-owned ranges (all RelocOK looks at)
+      ocells == TLCEval({ c \in cells : c[1] \in owned })
   IN [overlap |-> Card(cells) = TotalLen(secs, 1),
       domain  |-> CellAddrs(cells) = CellAddrs(limg),
       perms   |-> { <<c[1], c[3]>> : c \in cells } = { <<c[1], c[3]>> : c \in limg },
       data    |-> { c \in cells : c[1] \notin owned } = { c \in limg : c[1] \notin owned },
-      relocs  |-> \A r \in 1..Len(Relocs) : RelocOK(objs, cells, Relocs[r])]
+      relocs  |-> \A r \in 1..Len(Relocs) : RelocOK(objs, ocells, Relocs[r])]
 LMemoryOK(e) ==
   /\ Clean(e.res) /\ Linked
   /\ LET p == LMemParts(e) IN p.overlap /\ p.domain /\ p.perms /\ p.data /\ p.relocs
